@@ -91,14 +91,42 @@ func (ctx Ctx) Decls(fs ...NamedFile) (imports coq.ImportDecls, decls []coq.Decl
 	var lastFile int
 	var processDecl func(id declId, ident string)
 
+	// declarations whose dependencies are being emitted right now: a
+	// dependency on one of them closes a cycle, and no order of definitions
+	// puts every name before its uses
+	inProgress := make(map[declId]bool)
+	cycleError := func(id declId, dep string) (err error) {
+		defer func() {
+			if r := recover(); r != nil {
+				gooseErr, ok := r.(gooseError)
+				if !ok {
+					panic(r)
+				}
+				err = gooseErr.err
+			}
+		}()
+		ctx.unsupported(fs[id.fileIdx].Ast.Decls[id.declIdx],
+			"mutually recursive declarations (this one and %s)", dep)
+		return nil
+	}
+
 	processDecl = func(id declId, ident string) {
 		if generated[id] {
 			return
 		}
 		generated[id] = true
+		inProgress[id] = true
+		defer delete(inProgress, id)
 
 		for _, dep := range declDeps[id] {
 			depid, ok := nameDecls[dep]
+			if ok && depid != id && inProgress[depid] {
+				if declGroups[id] != nil {
+					errs = append(errs, cycleError(id, dep))
+					declGroups[id] = nil
+				}
+				continue
+			}
 			if ok {
 				processDecl(depid, dep)
 			}
